@@ -727,7 +727,12 @@ pub trait StoreFor<T: Storable>: Configurable + private::StoreCallbacks<T> {
             //insert a mapping from the public ID to the internal numeric ID in the idmap
             if let Some(id) = item.id() {
                 //check if public ID does not already exist
-                if self.has(id) {
+                //(only an item that carries this very ID counts, not one that a temporary ID happens to point at)
+                if self
+                    .idmap()
+                    .map(|idmap| idmap.data.contains_key(id))
+                    .unwrap_or(false)
+                {
                     //ok. the already ID exists, now is the existing item exactly the same as the item we're about to insert?
                     //in that case we can discard this error and just return the existing handle without actually inserting a new one
                     let existing_item = self.get(id).unwrap();
